@@ -185,8 +185,7 @@ def hasLinkChild (s : State) (env : Env) (p : Str) (all : Bool) : Bool :=
   | none => false
 
 def classOf (s : State) (env : Env) : Op → String
-  | .dirs p | .files p => if hasLinkChild s env p false then "listing_includes_links" else "-"
-  | .allDirs p | .allFiles p => if hasLinkChild s env p true then "listing_includes_links" else "-"
+  -- `listing_includes_links` (dirs / files / all_dirs / all_files with a link below) is repaired: "-"
   | .writeLines _ ls | .appendLines _ ls => if (joinLines ls).isNone then "empty_lines_noop" else "-"
   | .appendLine _ l => if l = [] then "empty_lines_noop" else "-"
   | .readlink p =>
